@@ -586,29 +586,30 @@ namespace Hist
 
 /-- (iii) `multi_get([1, 2])` of client 1; client 0 and the worker put key 2 BETWEEN the two lookups -/
 def exMget : List (Act × Oracle) :=
-  exBase ++ [(.issue 1 (.mget [1, 2] false), noO), (.client 1, noO), (.client 1, noO), (.client 1, { pool := [0] })] ++
-    call 0 (.putW 2 200 3 none) 4 ++ workerN 6 ++ [(.client 1, noO), (.client 1, { pool := [0] })]
+  exBase ++ [(.issue 1 (.mget [1, 2] false), noO), (.client 1, noO), (.client 1, noO), (.client 1, noO), (.client 1, noO),
+      (.client 1, { pool := [0] })] ++
+    call 0 (.putW 2 200 3 none) 4 ++ workerN 6 ++ [(.client 1, noO), (.client 1, noO), (.client 1, { pool := [0] })]
 
 end Hist
 
-/-- **Non-vacuity (iii): a multi-key read, per position.**  `multi_get([1, 2])` begins at 11; position 0 (key 1) is
-    looked up at 13; the put of key 2 begins at 15 — AFTER the read began — and is stored at 25; position 1 (key 2) is
-    looked up at 26; the read returns `[Some(100), Some(200)]` at 27: no snapshot, each position regular at its own
-    lookup. -/
+/-- **Non-vacuity (iii): a multi-key read, per position.**  `multi_get([1, 2])` begins at 11 (first action 12, the load
+    at its entry 13, the load inside `get(1)` 14); position 0 (key 1) is looked up at 15; the put of key 2 begins at 17 —
+    AFTER the read began — and is stored at 27; (the load inside `get(2)` 28;) position 1 (key 2) is looked up at 29; the
+    read returns `[Some(100), Some(200)]` at 30: no snapshot, each position regular at its own lookup. -/
 theorem C02_layerB_regular_mget_witness :
     RunH exInit (exHist exMget) (exFinal exMget) ∧
     Issued (exHist exMget) 1 (.mget [1, 2] false) 11 ∧
-    Returned (exHist exMget) (exFinal exMget) 1 27 (.values [some 100, some 200]) ∧
-    (∀ q r, 11 < q → q < 27 → ¬ Issued (exHist exMget) 1 r q) ∧
-    (∃ e, MLookup (exHist exMget) 1 0 1 13 e ∧ e.value = 100) ∧
-    Issued (exHist exMget) 0 (.putW 2 200 3 none) 15 ∧ WritePoint (exHist exMget) 25 2 200 ∧
-    (∃ e, MLookup (exHist exMget) 1 1 2 26 e ∧ e.value = 200) := by
+    Returned (exHist exMget) (exFinal exMget) 1 30 (.values [some 100, some 200]) ∧
+    (∀ q r, 11 < q → q < 30 → ¬ Issued (exHist exMget) 1 r q) ∧
+    (∃ e, MLookup (exHist exMget) 1 0 1 15 e ∧ e.value = 100) ∧
+    Issued (exHist exMget) 0 (.putW 2 200 3 none) 17 ∧ WritePoint (exHist exMget) 27 2 200 ∧
+    (∃ e, MLookup (exHist exMget) 1 1 2 29 e ∧ e.value = 200) := by
   refine ⟨exRun (by decide), ⟨_, rfl⟩, ⟨_, _, rfl, Or.inl ⟨rfl, rfl⟩, rfl, rfl⟩, noIssue_check (by decide),
     ⟨_, ⟨_, _, _, _, rfl, rfl, rfl, rfl, rfl⟩, rfl⟩, ⟨_, rfl⟩,
     ⟨_, rfl, Or.inl ⟨_, rfl, _, _, rfl, rfl, rfl, rfl, rfl⟩⟩, ⟨_, ⟨_, _, _, _, rfl, rfl, rfl, rfl, rfl⟩, rfl⟩⟩
 
 example : ∀ j v, [some 100, some 200][j]? = some (some v) →
-    ∃ k n₁ e, [1, 2][j]? = some k ∧ 11 < n₁ ∧ n₁ < 27 ∧ MLookup (exHist exMget) 1 j k n₁ e ∧ e.value = v ∧
+    ∃ k n₁ e, [1, 2][j]? = some k ∧ 11 < n₁ ∧ n₁ < 30 ∧ MLookup (exHist exMget) 1 j k n₁ e ∧ e.value = v ∧
       LatestWrite (exHist exMget) exInit k v n₁ ∧ LiveIncarnation (exHist exMget) exInit k e.id n₁ := by
   obtain ⟨hrun, hiss, hret, hsame, _⟩ := C02_layerB_regular_mget_witness
   exact C02_layerB_regular_mget exIdle hrun hiss hret (by decide) hsame
